@@ -4,6 +4,7 @@ import (
 	"fmt"
 	"go/token"
 	"go/types"
+	"os"
 	"regexp"
 	"strconv"
 	"strings"
@@ -424,6 +425,11 @@ func (e *Exec) runDefers(fn *ssa.Function, fc *FuncContract, st *State) (bool, [
 // ---------- calls ----------
 
 func (e *Exec) call(fn *ssa.Function, fc *FuncContract, st *State, x *ssa.Call) (bool, []Exit) {
+	if auditDead && fn == e.fn && st.pc != "false" {
+		// audit mode (GOVC_DEAD=1): every call site of the function under verification gets a reachability cover
+		e.siteCovers = append(e.siteCovers, &Obligation{Name: fmt.Sprintf("%s#cover#dead:call@%s", e.fn.String(), e.eng.posString(x.Pos())), Kind: "cover", Func: e.fn.String(),
+			Prefix: e.sc.mark(), Goal: "false", PC: st.pc, Script: e.sc, Expect: "sat", Props: e.propsDef, Site: true, Pos: e.eng.posString(x.Pos())})
+	}
 	var args []Val
 	for _, a := range x.Call.Args {
 		args = append(args, e.val(st, a))
@@ -1518,14 +1524,17 @@ func (e *Exec) beforeCall(st *State, name string, pos token.Pos, args []Val) {
 		// solver proves unreachable makes every clause about it vacuous - reported, unless the clause
 		// itself says the site is unreachable (`false`)
 		if strings.TrimSpace(cl.Expr[j+1:]) != "false" {
-			key := fmt.Sprintf("%s@%d", name, pos)
+			key := fmt.Sprintf("%d:%s@%d", i, name, pos)
 			if e.siteCovered == nil {
 				e.siteCovered = map[string]bool{}
 			}
 			if !e.siteCovered[key] && st.pc != "false" {
 				e.siteCovered[key] = true
-				e.siteCovers = append(e.siteCovers, &Obligation{Name: e.fn.String() + "#cover#site:" + name + "@" + e.eng.posString(pos), Kind: "cover", Func: e.fn.String(),
-					Prefix: e.sc.mark(), Goal: "false", PC: st.pc, Script: e.sc, Expect: "sat", Props: e.propsDef, Site: true, Pos: e.eng.posString(pos)})
+				// grouped by clause (within this scenario / variant run): the clause is vacuous only if none of
+				// the call sites it applies to is reachable
+				e.siteCovers = append(e.siteCovers, &Obligation{Name: fmt.Sprintf("%s%s#cover#site:%d:%s@%s", e.fn.String(), scenSuffix(e.sct.name), i, name, e.eng.posString(pos)), Kind: "cover", Func: e.fn.String(),
+					Prefix: e.sc.mark(), Goal: "false", PC: st.pc, Script: e.sc, Expect: "sat", Props: e.propsDef, Site: true, Pos: e.eng.posString(pos),
+					Group: fmt.Sprintf("%s%s#before#%d %s (%s:%d)", e.fn.String(), scenSuffix(e.sct.name), i, name, cl.File, cl.Line)})
 			}
 		}
 		// `in_loop == K ==> ...`: the clause is about the call sites in loop K; elsewhere it holds
@@ -1558,6 +1567,8 @@ func (e *Exec) beforeCall(st *State, name string, pos token.Pos, args []Val) {
 		e.propsDef = saved
 	}
 }
+
+var auditDead = os.Getenv("GOVC_DEAD") != ""
 
 var inLoopGuard = regexp.MustCompile(`^in_loop == (-?[0-9]+) ==> `)
 
